@@ -60,6 +60,7 @@ func main() {
 	}
 	s, _ := strconv.ParseUint(*seed, 10, 64)
 	c := &Ctx{Tier: *tier, Seed: s, Rng: NewRng(s), Em: NewEmitter(*out), It: NewInterp(), Arg: *arg, Shard: *shard, Shards: *shards}
+	runHistory(c, flag.Arg(0))
 	g(c)
 	c.Em.Close()
 }
